@@ -11,7 +11,15 @@ Oracles (never consult the model): Python's own `list(range(...))`, the iterable
 the literal while-loop for generate, accumulated delays for generate_with_relative_time,
 d + k*p for timer, [v]*n for repeat_value.  Differential runs: the same observable on its
 default scheduler (trampoline / immediate; under lib.with_timeout) and, for the timed
-factories, on reactivex.testing.TestScheduler."""
+factories, on reactivex.testing.TestScheduler.
+
+Oracle-only re-subscription family: the SAME observable object is subscribed a second time
+after the first run ('sequential') and twice at once ('overlapping'); every subscription must
+emit the specified sequence by itself (per-subscription state: range's iterator, generate's
+`first`/`state`, the iterable's iterator).  generate conditions hand back non-bool verdicts
+of the same truthiness (1/0, "x"/"", "x"/None, [0]/[]) while the Gallina table stays boolean;
+throw("text") / rx.just and falsy payloads (None, 0, False, "", (), 0.0) for of / from_iterable
+/ return_value / repeat_value are generated too (payloads are interned to ids for Coq)."""
 import datetime as dt
 import itertools
 import json
@@ -27,6 +35,31 @@ NAMES = ["range", "from_iterable", "of", "return_value", "empty", "never", "thro
          "generate_with_relative_time", "timer", "repeat_value"]
 MAX_INPUTS = 40
 D = list(range(-1, 7))          # state domain of generated loop functions
+# payload pool of the value-carrying factories (of / from_iterable / return_value / repeat_value): ids 0..9,
+# falsy values first; Coq sees the ids
+PV = k2.Pool([None, 0, False, "", (), 0.0, 1, 2, "a", 7])
+# what a generate condition hands back for (true, false): same truthiness, not always a bool
+VERDICTS = {"bool": (True, False), "int": (1, 0), "str": ("x", ""), "none": ("x", None), "container": ([0], [])}
+TEXT = "boom"                   # throw("text")
+
+
+def pv_id(v):
+    try:
+        return PV.id(v)
+    except KeyError:
+        return -12345               # a payload that was never put in
+
+
+def ident(v):
+    return v
+
+
+def enc_of(case):
+    return pv_id if case.get("pool") else ident
+
+
+def val_of(case):
+    return PV.val if case.get("pool") else ident
 
 
 # ---- driver -------------------------------------------------------------------------
@@ -93,19 +126,20 @@ def run_source(build, dispose_after=None, horizon=None, budget=None, via_factory
 def emitted(res):
     """[(time_ms, kind, payload)] with payload = value / error id / None"""
     out = []
+    enc = res.get("enc", ident)
     for (tag, kind, a, b) in res["log"]:
         if kind == "emit":
             t = res["inputs"][tag - 1][0] if tag > 0 else 0
-            out.append((t, a, b if a == "N" else (err_id(b) if a == "E" else None)))
+            out.append((t, a, enc(b) if a == "N" else (err_id(b) if a == "E" else None)))
     return out
 
 
-def run_default(build):
+def run_default(build, enc=ident):
     """the same observable on its default scheduler (only for the factories whose default is the
     trampoline / immediate scheduler); -> ('ok', [(kind, payload)]) | ('timeout', None)"""
     def go():
         out = []
-        build(None, None).subscribe(lambda v: out.append(("N", v)), lambda e: out.append(("E", err_id(e))),
+        build(None, None).subscribe(lambda v: out.append(("N", enc(v))), lambda e: out.append(("E", err_id(e))),
                                     lambda: out.append(("C", None)))
         return out
     return lib.with_timeout(5, go)
@@ -197,13 +231,16 @@ def gen_case(rng, name):
         if name == "from_iterable" and rng.random() < 0.3:
             items.insert(rng.randrange(n + 1), ["raise", 51])
         c.update(items=items, alias=rng.choice(["from_iterable", "from_", "from_list"]),
-                 via_factory=name == "from_iterable" and rng.random() < 0.5)
+                 via_factory=name == "from_iterable" and rng.random() < 0.5, pool=True)
         if rng.random() < 0.3 and n:
             c["budget"] = rng.randint(1, n)
     elif name == "return_value":
-        c.update(v=rng.randrange(10), via_factory=rng.random() < 0.5)
-    elif name in ("empty", "throw"):
+        c.update(v=rng.randrange(10), via_factory=rng.random() < 0.5, pool=True,
+                 alias=rng.choice(["return_value", "just"]))
+    elif name == "empty":
         c.update(via_factory=rng.random() < 0.5)
+    elif name == "throw":
+        c.update(via_factory=rng.random() < 0.5, exc=rng.choice(["user", "text"]))
     elif name in ("generate", "generate_with_relative_time"):
         cond = {}
         limit = rng.choice([0, 1, 2, 3, 4, 6])
@@ -216,7 +253,8 @@ def gen_case(rng, name):
             cond[rng.choice(D)] = ("raise", 52)
         if rng.random() < 0.2:
             it[rng.choice(D)] = ("raise", 53)
-        c.update(init=rng.choice([-1, 0, 0, 1, 2]), cond=tbl_json(cond), iter=tbl_json(it))
+        c.update(init=rng.choice([-1, 0, 0, 1, 2]), cond=tbl_json(cond), iter=tbl_json(it),
+                 verdict=rng.choice(["bool", "int", "str", "none", "container"]))
         if name == "generate_with_relative_time":
             tm = {x: ("ok", rng.choice([0, 0, 10, 20, 35])) for x in D}
             if rng.random() < 0.2:
@@ -232,7 +270,7 @@ def gen_case(rng, name):
         c.update(d=d, p=p, d_as=rng.choice(["float", "timedelta", "datetime"]),
                  p_as=rng.choice(["float", "timedelta"]), via_factory=rng.random() < 0.5, horizon=200)
     elif name == "repeat_value":
-        c.update(v=rng.randrange(10), n=rng.choice([None, -1, 0, 1, 2, 3, 5]))
+        c.update(v=rng.randrange(10), n=rng.choice([None, -1, 0, 1, 2, 3, 5]), pool=True)
     if rng.random() < 0.25:
         c["dispose_after"] = rng.choice([0, 1, 2, 3])
     return c
@@ -252,6 +290,7 @@ def make(case):
     """-> (build(env, sched) -> observable, coq machine text | None when the factory itself raises)"""
     import reactivex as rx
     n = case["name"]
+    val = val_of(case)
     if n == "range":
         a, stop, step = case["a"], case["stop"], case["step"]
 
@@ -267,22 +306,30 @@ def make(case):
         g_items = "[" + "; ".join(g_res(i, gz) for i in items) + "]"
         gb = "None" if case["budget"] is None else f"(Some {case['budget']}%nat)"
         if n == "of":
-            return (lambda env, sched: rx.of(*[i[1] for i in items])), f"x_from_iterable false {g_items} {gb}"
+            return (lambda env, sched: rx.of(*[val(i[1]) for i in items])), f"x_from_iterable false {g_items} {gb}"
         fn = getattr(rx, case["alias"])
-        return (lambda env, sched: fn(SpyIterable(env, items), scheduler=sched)), f"x_from_iterable true {g_items} {gb}"
+        pitems = [(k, val(v) if k == "ok" else v) for (k, v) in items]
+        return (lambda env, sched: fn(SpyIterable(env, pitems), scheduler=sched)), f"x_from_iterable true {g_items} {gb}"
     if n == "return_value":
-        return (lambda env, sched: rx.return_value(case["v"], scheduler=sched)), f"x_return_value {case['v']}"
+        rv = getattr(rx, case.get("alias", "return_value"))         # rx.just is the documented alias
+        return (lambda env, sched: rv(val(case["v"]), scheduler=sched)), f"x_return_value {case['v']}"
     if n == "empty":
         return (lambda env, sched: rx.empty(scheduler=sched)), "x_empty"
     if n == "never":
         return (lambda env, sched: rx.never()), "x_never"
     if n == "throw":
         # the factory's scheduler argument is shadowed inside throw_ (see Ops/Sources.v)
+        if case.get("exc") == "text":       # throw("text") wraps the text in a plain Exception (err id -100)
+            return ((lambda env, sched: rx.throw(TEXT, scheduler=sched)),
+                    f"x_throw_immediate {gz(-100)}" if case["via_factory"] else f"x_throw {gz(-100)}")
         return ((lambda env, sched: rx.throw(UserError(11), scheduler=sched)),
                 "x_throw_immediate 11" if case["via_factory"] else "x_throw 11")
     if n in ("generate", "generate_with_relative_time"):
         cond, it = tbl_unjson(case["cond"]), tbl_unjson(case["iter"])
         pc, pi = py_table(cond, ("ok", False)), py_table(it, ("ok", 0))
+        vt, vf = VERDICTS[case.get("verdict", "bool")]
+        pb = pc
+        pc = lambda x: vt if pb(x) else vf           # same truthiness, not necessarily a bool
         gc, gi = g_table(cond, ("ok", False), lib.gbool), g_table(it, ("ok", 0), gz)
         if n == "generate":
             return (lambda env, sched: rx.generate(case["init"], pc, pi)), f"x_generate {gz(case['init'])} {gc} {gi}"
@@ -301,7 +348,7 @@ def make(case):
         coq = f"x_timer_periodic {gz(p)}" if same else f"x_timer_period {gz(d)} {gz(p)}"
         return (lambda env, sched: rx.timer(dv, pv, scheduler=sched)), coq
     if n == "repeat_value":
-        return (lambda env, sched: rx.repeat_value(case["v"], case["n"])), f"x_repeat_value {case['v']} {gopt(case['n'])}"
+        return (lambda env, sched: rx.repeat_value(val(case["v"]), case["n"])), f"x_repeat_value {case['v']} {gopt(case['n'])}"
     raise AssertionError(n)
 
 
@@ -319,7 +366,100 @@ def run_case(case):
     res = run_source(build, dispose_after=case["dispose_after"], horizon=case["horizon"], budget=case["budget"],
                      via_factory=case["via_factory"])
     res["coq"] = coq
+    res["enc"] = enc_of(case)
     return res
+
+
+# ---- the same observable object subscribed twice (oracle only) ------------------------------
+
+def run_shared(case, mode):
+    """ONE observable object, two subscriptions on the proxy scheduler.
+    'sequential': the first subscription runs as the case says (to its end / disposed / cut, then disposed), the
+    second one is made afterwards and runs undisturbed; 'overlapping': both are made before any timer fires, the
+    first one disposes as the case says (dispose_after counts all firings), the second one never does.
+    -> [(case_i, res_i)]: each res_i has its own emission log and clock readings relative to its subscribe()."""
+    build, _ = make(case)
+    env = k2m.Env()
+    sched = k2m.make_scheduler(env)
+    via = case["via_factory"]
+    obs = build(env, sched if via else None)
+    enc = enc_of(case)
+
+    def subscribe(inputs, budget):
+        r = {"log": [], "inputs": inputs, "escapes": [], "capped": False, "disposed": False, "enc": enc, "sub": None,
+             "t0": env.now}
+        seen = [0]
+
+        def on_next(v):
+            r["log"].append((len(inputs), "emit", "N", v))
+            seen[0] += 1
+            if budget is not None and seen[0] == budget:
+                r["disposed"] = True
+                r["sub"].dispose()
+        try:
+            r["sub"] = obs.subscribe(on_next, lambda e: r["log"].append((len(inputs), "emit", "E", e)),
+                                     lambda: r["log"].append((len(inputs), "emit", "C", None)),
+                                     scheduler=None if via else sched)
+        except Exception as e:
+            r["escapes"].append((0, e))
+        return r
+
+    def pump(runs, inputs, t0, dispose_after):
+        fired = 0
+        while True:
+            if dispose_after is not None and not runs[0]["disposed"] and fired >= dispose_after:
+                runs[0]["disposed"] = True
+                if runs[0]["sub"] is not None:
+                    runs[0]["sub"].dispose()
+                continue
+            if not env.timers:
+                return
+            tag = min(env.timers, key=lambda t: (env.timers[t][0], t))
+            due = env.timers[tag][0]
+            if (case["horizon"] is not None and due - t0 > case["horizon"]) or fired >= MAX_INPUTS:
+                for r in runs:
+                    r["capped"] = True
+                return
+            env.now = max(env.now, due)
+            inputs.append((env.now - t0, ("tick", tag)))      # appended BEFORE firing: log tags are len(inputs)
+            fired += 1
+            try:
+                sched.fire(tag)
+            except Exception as e:
+                for r in runs:
+                    r["escapes"].append((len(inputs), e))
+
+    first = dict(case)
+    second = dict(case, dispose_after=None, budget=None)
+    if mode == "sequential":
+        i1 = []
+        r1 = subscribe(i1, case["budget"])
+        pump([r1], i1, 0, case["dispose_after"])
+        if r1["sub"] is not None:
+            r1["sub"].dispose()
+        env.timers.clear()          # whatever the first subscription left behind is not the second one's business
+        t0 = env.now
+        i2 = []
+        r2 = subscribe(i2, None)
+        pump([r2], i2, t0, None)
+        return [(first, r1), (second, r2)]
+    inputs = []
+    r1 = subscribe(inputs, case["budget"])
+    r2 = subscribe(inputs, None)
+    pump([r1, r2], inputs, 0, case["dispose_after"])
+    return [(first, r1), (second, r2)]
+
+
+def oracle_shared(case, mode):
+    """every subscription of the one observable object emits the specified sequence by itself"""
+    if case["name"] == "range" and case["step"] == 0:
+        return None
+    # an absolute due time (timer(datetime)) lies in the past for a later subscription: sequence only
+    for i, (c, r) in enumerate(run_shared(case, mode)):
+        v = oracle(c, r, check_times=not (mode == "sequential" and i == 1 and case.get("d_as") == "datetime"))
+        if v:
+            return f"subscription {i + 1} of 2 ({mode}) of one observable object: {v}"
+    return None
 
 
 # ---- oracles ------------------------------------------------------------------------------
@@ -368,7 +508,7 @@ def expect(case):
     if n == "never":
         return ("finite", []), None
     if n == "throw":
-        return ("finite", [("E", 11)]), None
+        return ("finite", [("E", -100 if case.get("exc") == "text" else 11)]), None
     if n in ("generate", "generate_with_relative_time"):
         cond, it = py_table(tbl_unjson(case["cond"]), ("ok", False)), py_table(tbl_unjson(case["iter"]), ("ok", 0))
         tm = py_table(tbl_unjson(case["tm"]), ("ok", 0)) if "tm" in case else None
@@ -402,13 +542,17 @@ def expect(case):
     raise AssertionError(n)
 
 
-def oracle(case, res):
+def oracle(case, res, check_times=True):
     n = case["name"]
     if "factory_raised" in res:
         return None if isinstance(res["factory_raised"], ValueError) else "range(..., step=0) did not raise ValueError"
     if res["escapes"]:
         return f"exception escaped into the scheduler: {[repr(e) for _, e in res['escapes']]}"
     em = emitted(res)
+    if n == "throw" and case.get("exc") == "text":
+        for (_, kind, a, b) in res["log"]:
+            if kind == "emit" and a == "E" and not (type(b) is Exception and b.args == (TEXT,)):
+                return f"throw({TEXT!r}) delivered {b!r}, specified Exception({TEXT!r})"
     (kind, exp), times = expect(case)
     got = seq(em)
     if kind == "finite":
@@ -429,7 +573,7 @@ def oracle(case, res):
         if not res["disposed"] and not res["capped"]:
             return "an endless sequence stopped by itself"
         tl = list(itertools.islice(times, len(got))) if times is not None else None
-    if tl is not None:
+    if tl is not None and check_times:
         at = [t for (t, _, _) in em]
         if at != list(tl)[:len(at)]:
             return f"emission instants {at} (ms), specified {list(tl)[:len(at)]}"
@@ -443,7 +587,7 @@ def differential(case, res, build):
         return None
     got = seq(emitted(res))
     if n in SYNC_DEFAULT:
-        st, out = run_default(build)
+        st, out = run_default(build, enc_of(case))
         if st == "timeout":
             return "default scheduler: did not return within 5 s"
         if out != got:
@@ -466,7 +610,9 @@ def run(chk):
         ncase = max(ncase, 700)
     cases, per, nontrivial = [], {}, set()
     hist = {"disposed_midway": 0, "reentrant_dispose": 0, "zero_delay": 0, "empty_range": 0, "negative_step": 0,
-            "raising_callback_or_iterator": 0, "endless_cut": 0, "scheduler_via_factory": 0, "differential_runs": 0}
+            "raising_callback_or_iterator": 0, "endless_cut": 0, "scheduler_via_factory": 0, "differential_runs": 0,
+            "resubscribed_sequential": 0, "resubscribed_overlapping": 0, "nonbool_verdict": 0, "throw_text": 0,
+            "just_alias": 0, "falsy_payload_emitted": 0}
     for name in NAMES:
         for _ in range(ncase if name not in ("empty", "never", "throw") else max(6, ncase // 10)):
             case = gen_case(chk.rng, name)
@@ -482,6 +628,18 @@ def run(chk):
             if not v:
                 v = differential(case, res, build)
                 hist["differential_runs"] += 1
+            for mode in ("sequential", "overlapping"):
+                v2 = oracle_shared(case, mode)
+                chk.cov["evaluations"] += 1
+                hist["resubscribed_" + mode] += 1
+                if v2:
+                    chk.violation(f"C37|{name}|resubscribe {mode}|{v2[v2.index(':') + 2:][:50]}",
+                                  {"case": case, "resubscribe": mode, "what": v2}, size=len(res["inputs"]) + 1)
+            hist["nonbool_verdict"] += case.get("verdict", "bool") != "bool"
+            hist["throw_text"] += case.get("exc") == "text"
+            hist["just_alias"] += case.get("alias") == "just"
+            if case.get("pool"):
+                hist["falsy_payload_emitted"] += any(a == "N" and not b for (_, k, a, b) in res["log"] if k == "emit")
             em = emitted(res)
             hist["disposed_midway"] += bool(res["disposed"] and case["budget"] is None)
             hist["reentrant_dispose"] += case["budget"] is not None
@@ -494,7 +652,7 @@ def run(chk):
             if name == "generate_with_relative_time":
                 hist["zero_delay"] += any(k == "timer" and b == 0 and tag > 0 for (tag, k, a, b) in res["log"])
             gi = k2m.g_inputs(res["inputs"])
-            gt = k2m.g_trace(res, gz)
+            gt = k2m.g_trace(res, lambda x: gz(res["enc"](x)))
             if v:
                 chk.violation(f"C37|{name}|{v[:60]}", {"case": case, "machine": res["coq"], "inputs (now, event)": gi,
                                                        "observed trace": gt, "what": v}, size=len(res["inputs"]))
@@ -520,7 +678,13 @@ def run(chk):
                        "{-10,0,5,30} as float/timedelta/datetime, period None/0/10/30; repeat counts None,-1,0..5) x "
                        "scheduler passed to subscribe() or to the factory x dispose after 0-3 timer firings (25%); "
                        "endless sequences cut after 40 firings or 200 ms; non-trivial = distinct (machine, delivered "
-                       "inputs) with >= 2 emissions and oracle + differential runs satisfied")
+                       "inputs) with >= 2 emissions and oracle + differential runs satisfied.  generate conditions "
+                       "return bool / 1,0 / 'x','' / 'x',None / [0],[] verdicts (Gallina table stays boolean); "
+                       "payloads of of/from_iterable/return_value(just)/repeat_value from the pool [None,0,False,'',(),"
+                       "0.0,1,2,'a',7] (ids in Coq); throw(UserError) or throw('text').  Oracle only: every case "
+                       "additionally with ONE observable object subscribed twice -- sequentially (second "
+                       "subscription after the first ended / was disposed) and overlapping (both before any firing; "
+                       "the first disposes as the case says) -- each subscription must satisfy the oracle by itself")
     chk.cov["input_distribution"] = {"per_factory": per, **hist}
     short = [c for c in cases if len(c[0]) + len(c[1]) < 700]
     chk.add_samples([{"case": c[0], "trace": c[1]} for c in short[:: max(1, len(short) // 6)]][:6])
@@ -537,12 +701,15 @@ def replay(chk, path):
     d = json.load(open(path))
     case = d["case"]
     res = run_case(case)
-    v = oracle(case, res)
-    if not v and "factory_raised" not in res:
-        v = differential(case, res, make(case)[0])
+    if d.get("resubscribe"):
+        v = oracle_shared(case, d["resubscribe"])
+    else:
+        v = oracle(case, res)
+        if not v and "factory_raised" not in res:
+            v = differential(case, res, make(case)[0])
     out = {"case": case, "machine": res.get("coq"), "oracle": v or "holds"}
     if "log" in res:
-        out["observed trace"] = k2m.g_trace(res, gz)
+        out["observed trace"] = k2m.g_trace(res, lambda x: gz(res.get("enc", ident)(x)))
         out["inputs"] = k2m.g_inputs(res["inputs"])
     print(json.dumps(out, indent=1))
     if v:
